@@ -1505,10 +1505,16 @@ func (c *clipperBase) checkJoinRight(e *Active, pt Point64, checkCurrX bool) {
 
 	if e.outrec.idx == next.outrec.idx {
 		c.addLocalMaxPoly(e, next, pt)
-	} else if e.outrec.idx < next.outrec.idx {
-		c.joinOutrecPaths(e, next)
 	} else {
-		c.joinOutrecPaths(next, e)
+		// the join point must be on the output path before the two
+		// paths are spliced, otherwise everything between the last
+		// emitted points of e and next and pt is cut off
+		addOutPt(e, pt)
+		if e.outrec.idx < next.outrec.idx {
+			c.joinOutrecPaths(e, next)
+		} else {
+			c.joinOutrecPaths(next, e)
+		}
 	}
 
 	e.joinWith = JoinRight
@@ -1542,10 +1548,14 @@ func (c *clipperBase) checkJoinLeft(e *Active, pt Point64, checkCurrX bool) {
 
 	if e.outrec != nil && prev.outrec != nil && e.outrec.idx == prev.outrec.idx {
 		c.addLocalMaxPoly(prev, e, pt)
-	} else if e.outrec != nil && prev.outrec != nil && e.outrec.idx < prev.outrec.idx {
-		c.joinOutrecPaths(e, prev)
 	} else {
-		c.joinOutrecPaths(prev, e)
+		// see checkJoinRight: emit the join point before splicing
+		addOutPt(e, pt)
+		if e.outrec != nil && prev.outrec != nil && e.outrec.idx < prev.outrec.idx {
+			c.joinOutrecPaths(e, prev)
+		} else {
+			c.joinOutrecPaths(prev, e)
+		}
 	}
 
 	prev.joinWith = JoinRight
